@@ -166,6 +166,11 @@ def h_presence(env):
         d = sj.to_json(cat, "M", val, "camel", native_map_keys=True, native_wrappers=True, native_map_values=True)
         m = mod.M.from_dict(d) if way == "from_dict-class" else mod.M().from_dict(d)
         mark_received(cat, "M", val)
+    if env.params.get("carry"):
+        # presence is a property of the value: a copy taken before anything has read or encoded the message carries it unchanged
+        import copy as _copy
+
+        m = _copy.deepcopy(m) if env.params["carry"] == "deepcopy" else _copy.copy(m)
     data = bytes(m)
     env.observe("bytes", data)
     spec = sm.spec_encode(cat, "M", val)
@@ -230,9 +235,22 @@ def h_received_empty(env):
     else:
         x = mod.Leaf()
     received = way != "fresh"
+    import copy as _copy
+
+    carry = env.choose("carry", 5)  # as is | copy of the leaf | deepcopy of the leaf | deepcopy of the parent | leaf read first, then deepcopy of the parent
+    if carry == 1:
+        x = _copy.copy(x)
+    elif carry == 2:
+        x = _copy.deepcopy(x)
     env.check("received-empty-message-is-present", betterproto.serialized_on_wire(x) == received, way)
     t = env.int("t", 0, 63)
     outer = mod.M(leaf=x, t=t)
+    if carry == 4:
+        # reading a field of a sub-message nobody set creates it lazily; that must not make it present, in the copy either
+        outer = mod.M(t=t) if not received else outer
+        env.check("reading-does-not-set", outer.leaf.__len__() == 0)
+    if carry >= 3:
+        outer = _copy.deepcopy(outer)
     data = bytes(outer)
     env.observe("bytes", data)
     want = (sw.len_field(2, b"") if received else b"") + (sw.field(3, "uint32", t) if t != 0 else b"")
@@ -255,6 +273,10 @@ def units(tier):
         u.append(("fresh[%s]" % name, h_fresh, {"cat": c}))
         for way in WAYS:
             u.append(("presence[%s | %s]" % (name, way), h_presence, {"cat": c, "way": way}))
+    for name, c in cats:
+        if name.startswith("s2 ") or "message" in name:
+            for way, carry in (("parse", "deepcopy"), ("from_dict-class", "deepcopy"), ("attr", "copy")):
+                u.append(("presence[%s | %s, then %s]" % (name, way, carry), h_presence, {"cat": c, "way": way, "carry": carry}))
     u.append(("received-empty-message[every decoding entry point]", h_received_empty, {}))
     return u
 
@@ -263,7 +285,7 @@ BUDGET = {"quick": 200, "thorough": 1200}
 UNIT_PATH_CAP = {"quick": 400, "thorough": 20000}
 BOUNDS = {
     "quick": "catalogue S1 + 3 map shapes + 6 S2 shapes; every field in {never set, set to the type default, set to a symbolic non-default value (one byte wide)} "
-    "x {constructor, attribute assignment, parse of the spec encoding, from_dict class and instance form}; all fields of a shape vary together; 400 paths per unit",
+    "x {constructor, attribute assignment, parse of the spec encoding, from_dict class and instance form; for shapes holding messages also parse / from_dict followed by deepcopy and attribute assignment followed by copy, taken before the first read}; all fields of a shape vary together; 400 paths per unit",
     "thorough": "same, 20000 paths per unit",
 }
 OUTSIDE = "wide values (C01), containers longer than 1, Timestamp/Duration"
